@@ -9,8 +9,8 @@
   What is mirrored literally: control flow of readVarInt/appendVarInt, readString/appendHpackString,
   parseHeaderFieldRepr and its four callees, Decoder.Write/Close (saveBuf), dynamicTable.add/evict/
   setMaxSize/search, Encoder.WriteField/searchTable/SetMaxDynamicTableSize(/Limit), and huffmanDecode's
-  two loops including (a) no padding validation and (b) the lookup of a child that may be nil in the
-  tail loop (→ `crash`).
+  two loops and, after the C31 fix (upstream's checks), the nil test in the tail loop and the final
+  `sbits > 7` / "padding is all ones" tests.
   What is abstracted (exercised by the correspondence run, not proved): the uint shift/mask
   arithmetic that packs bits into bytes (`cur`/`nbits` window, `rembits`), modelled as operations on
   bit lists; and the 256-ary decoding trie built by `init()/addDecoderNode`, modelled by its lookup
@@ -123,7 +123,6 @@ def padOk (T : Tables) : Bool :=
 inductive HErr where
   | invalid   -- ErrInvalidHuffman
   | strlen    -- ErrStringLength
-  | crash     -- nil pointer dereference (panic)
   deriving Repr, DecidableEq
 
 /-- `bs.length < 8` without walking the whole list -/
@@ -144,24 +143,35 @@ def mainLoop (T : Tables) (maxLen : Nat) : Nat → List Bool → List Bool → L
         else mainLoop T maxLen f [] (bs.drop l) (out ++ [s])
       | .internal => mainLoop T maxLen f (acc ++ bs.take 8) (bs.drop 8) out
 
-/-- the `for nbits > 0 { … }` tail loop -/
-def tailLoop (T : Tables) : Nat → List Bool → List Bool → List Nat → Except HErr (List Nat)
-  | 0, _, _, out => .ok out
+/-- the `for nbits > 0 { … }` tail loop (after the C31 fix: a nil child is an error); returns the state at
+    `break` / loop exit: current node path, unconsumed bits, output -/
+def tailLoop (T : Tables) : Nat → List Bool → List Bool → List Nat →
+    Except HErr (List Bool × List Bool × List Nat)
+  | 0, acc, pend, out => .ok (acc, pend, out)
   | f + 1, acc, pend, out =>
-    if pend.length = 0 then .ok out
+    if pend.length = 0 then .ok (acc, pend, out)
     else
       match look T acc (pend ++ List.replicate (8 - pend.length) false) with
-      | .nil => .error .crash            -- `n.children` of a nil `n`
-      | .internal => .ok out             -- break
+      | .nil => .error .invalid                  -- `if n == nil { return ErrInvalidHuffman }`
+      | .internal => .ok (acc, pend, out)        -- break
       | .leaf s l =>
-        if l > pend.length then .ok out  -- break
+        if l > pend.length then .ok (acc, pend, out)  -- break
         else tailLoop T f [] (pend.drop l) (out ++ [s])
+
+/-- the two final checks of the fixed huffmanDecode: `sbits > 7` (bits since the last complete symbol =
+    path of the current node + unconsumed bits) and "trailing bits are all ones" -/
+def finalize : Except HErr (List Bool × List Bool × List Nat) → Except HErr (List Nat)
+  | .error e => .error e
+  | .ok (acc, pend, out) =>
+    if acc.length + pend.length > 7 then .error .invalid
+    else if pend.all id then .ok out
+    else .error .invalid
 
 def huffmanDecode (T : Tables) (maxLen : Nat) (v : List Nat) : Except HErr (List Nat) :=
   let bs := bytesBits v
   match mainLoop T maxLen (bs.length + 1) [] bs [] with
   | .error e => .error e
-  | .ok (acc, pend, out) => tailLoop T 8 acc pend out
+  | .ok (acc, pend, out) => finalize (tailLoop T 8 acc pend out)
 
 /-! ### integers (hpack.go readVarInt, encode.go appendVarInt) -/
 
@@ -284,19 +294,24 @@ def Enc.setMaxDynamicTableSize (e : Enc) (v : Nat) : Enc :=
   let v := if v > e.limit then e.limit else v
   { e with minSize := if v < e.minSize then v else e.minSize, pending := true, tab := e.tab.setMaxSize v }
 
+/-- (after the C30 fix: the shrinking branch also lowers `minSize`, as SetMaxDynamicTableSize does) -/
 def Enc.setMaxDynamicTableSizeLimit (e : Enc) (v : Nat) : Enc :=
-  if e.tab.maxSize > v then { e with limit := v, pending := true, tab := e.tab.setMaxSize v }
+  if e.tab.maxSize > v then
+    { e with limit := v, minSize := if v < e.minSize then v else e.minSize, pending := true,
+             tab := e.tab.setMaxSize v }
   else { e with limit := v }
 
-/-- `Encoder.WriteField`: new encoder state and the bytes of the single `Write` -/
-def Enc.writeField (T : Tables) (e : Enc) (f : HF) : Enc × List Nat :=
-  let pre : List Nat :=
-    if e.pending then
-      (if e.minSize < e.tab.maxSize then appendTableSize e.minSize else []) ++ appendTableSize e.tab.maxSize
-    else []
-  let e1 : Enc := if e.pending then { e with pending := false, minSize := uint32Max } else e
+/-- first part of `Encoder.WriteField`: the pending "Header Table Size Update"(s) -/
+def Enc.flush (e : Enc) : Enc × List Nat :=
+  if e.pending then
+    ({ e with pending := false, minSize := uint32Max },
+      (if e.minSize < e.tab.maxSize then appendTableSize e.minSize else []) ++ appendTableSize e.tab.maxSize)
+  else (e, [])
+
+/-- second part of `Encoder.WriteField`: search, maybe index, one representation -/
+def Enc.encodeField (T : Tables) (e1 : Enc) (f : HF) : Enc × List Nat :=
   let r := searchTable T e1.tab.ents f
-  if r.2 then (e1, pre ++ orFirst 128 (appendVarInt 7 r.1))
+  if r.2 then (e1, orFirst 128 (appendVarInt 7 r.1))
   else
     let indexing := !f.sensitive && decide (f.size ≤ e1.tab.maxSize)
     let e2 : Enc := if indexing then { e1 with tab := e1.tab.add f } else e1
@@ -306,7 +321,13 @@ def Enc.writeField (T : Tables) (e : Enc) (f : HF) : Enc × List Nat :=
       else
         orFirst (encodeTypeByte indexing f.sensitive) (appendVarInt (if indexing then 6 else 4) r.1)
           ++ appendHpackString T f.value
-    (e2, pre ++ body)
+    (e2, body)
+
+/-- `Encoder.WriteField`: new encoder state and the bytes of the single `Write` -/
+def Enc.writeField (T : Tables) (e : Enc) (f : HF) : Enc × List Nat :=
+  let p := e.flush
+  let q := p.1.encodeField T f
+  (q.1, p.2 ++ q.2)
 
 /-! ### decoder (hpack.go) -/
 
@@ -329,7 +350,6 @@ def liftH : Except HErr (List Nat) → Except DErr (List Nat)
   | .ok s => .ok s
   | .error .invalid => .error .huffman
   | .error .strlen => .error .strLen
-  | .error .crash => .error .crash
 
 /-- `Decoder.readString` (wantStr = true: emitEnabled is never switched off here) -/
 def readString (T : Tables) (maxStrLen : Nat) (p : List Nat) : Except DErr (List Nat × List Nat) :=
